@@ -743,3 +743,56 @@ pub fn c09(out: &mut Vec<String>, rng: &mut Rng, tier: &str) {
         out.push(format!("{} => {}", l, arith_query(&reduced, conf)));
     }
 }
+
+pub fn obs_tokens_pub<F: FElem>(kind: &str, rng: &mut Rng, scale: f64) -> Vec<String> {
+    obs_tokens::<F>(kind, rng, scale)
+}
+pub fn random_history_pub<F: FElem>(kind: &str, rng: &mut Rng, max_ops: usize) -> Vec<String> {
+    random_history::<F>(kind, rng, max_ops).into_iter().filter(|t| t != "q").collect()
+}
+/// the state at the top of the stack after running a program (queries ignored)
+pub fn final_state<S: Acc>(toks: &[String]) -> S {
+    let mut st: Vec<S> = Vec::new();
+    let mut i = 0;
+    while i < toks.len() {
+        match toks[i].as_str() {
+            "E" => {
+                st.push(S::new());
+                i += 1;
+            }
+            "a" => {
+                st.last_mut().unwrap().append(&toks[i + 1..i + 1 + S::OBS]);
+                i += 1 + S::OBS;
+            }
+            "x" | "f" => {
+                let n: usize = toks[i + 1].parse().unwrap();
+                let obs = &toks[i + 2..i + 2 + n * S::OBS];
+                if toks[i] == "x" {
+                    st.last_mut().unwrap().extend(obs);
+                } else {
+                    st.push(S::from_iter(obs));
+                }
+                i += 2 + n * S::OBS;
+            }
+            "d" => {
+                let c = st.last().unwrap().clone();
+                st.push(c);
+                i += 1;
+            }
+            "m" => {
+                let r = st.pop().unwrap();
+                st.last_mut().unwrap().merge_assign(r);
+                i += 1;
+            }
+            "p" => {
+                let r = st.pop().unwrap();
+                let l = st.pop().unwrap();
+                st.push(l.add(r));
+                i += 1;
+            }
+            "q" => i += 1,
+            _ => panic!("bad token"),
+        }
+    }
+    st.pop().unwrap()
+}
